@@ -16,13 +16,14 @@ TRACE = ("Trace_Intervals", "Trace_Intervals.cfg")
 EXHAUSTIVE = True
 RULE = ("TLC enumerates every plain interval with end points k/4, k in -8..8 (153) and every angle interval with start "
         "a*pi/12, a in -24..24 and length 0..23 steps (1176).  Each plain interval is executed (float-typed, and int-typed "
-        "when integral) with: contains for 21 grid values (float and int, method and `in`), contains/overlaps/intersection "
-        "with all 153 intervals, + and - 17 shifts, * 7 scalars (incl. 0), / 6 scalars, round(None, 0, 1, 2), inverted "
-        "construction and end point assignment.  Each angle interval: membership of 73 grid angles in -3pi..3pi (float; "
-        "int 0; method and `in`), + and - the shifts of the cfg, contains(interval) and overlaps for every offset of the "
-        "second interval around the circle x the lengths of the cfg, inverted construction.  Plus seeded random "
-        "cases: arbitrary floats / ints strictly inside grid cells (judged by the cell).  "
-        "distinct_nontrivial = distinct intervals of positive length.")
+        "when integral) with: contains for the 21 grid values -10/4..10/4 (float and int, method and `in`), "
+        "contains/overlaps/intersection with all 153 intervals, + and - 17 shifts, end point assignment of 17 values, "
+        "* 7 scalars (incl. 0), / 6 scalars, round(None, 0, 1, 2), inverted construction.  Each angle interval: "
+        "membership of the 73 grid angles in -3pi..3pi (float; int 0; method and `in`), + and - 15 shifts (thorough: all 49), "
+        "contains(interval) and overlaps with a second interval at every offset 0..23 around the circle x 7 lengths "
+        "(thorough: all 24 lengths, both representations of the start), inverted construction.  Plus seeded random cases "
+        "(400 + 400; thorough 4000 + 4000): arbitrary floats / ints strictly inside grid cells, incl. values 1e-3..1e-12 "
+        "next to end points, judged by their cell.  distinct_nontrivial = distinct intervals of positive length.")
 ASSUMPTIONS = ["grid values are exact in binary floating point (k/4; products/quotients by +-1/2, +-1, +-2; decimal "
                "roundings as correctly rounded literals); angle grid k*pi/12 is computed as k*math.pi/12 everywhere",
                "angle end points that coincide with the query only modulo 2 pi (or after the constructor re-based the "
